@@ -27,6 +27,7 @@ def cxA : Ctx Int where
   sp := 0x20
   hy := 0x2D
   phA := 0x41
+  phNext := fun r => r + 1
   nl := 0x0A
   dIndent := Gen.defaultIndentStr
   dLineSep := Gen.defaultLineSeparator
@@ -42,6 +43,7 @@ def cxB : Ctx (List Int) where
   sp := [0x20]
   hy := [0x2D]
   phA := [0x41]
+  phNext := fun c => c.map (· + 1)
   nl := [0x0A]
   dIndent := clusters cxA Gen.defaultIndentStr
   dLineSep := clusters cxA Gen.defaultLineSeparator
